@@ -22,6 +22,7 @@ deriving Inhabited
 inductive Obj where
   | tl (sh : Shape) (t : Timeline F)
   | mg (sh : Shape) (m : Merged F)
+  | mg2 (sh : Shape) (m : Merged2 F)
   | an (sh : Shape) (a : Animator F)
   | qt (sh : Shape) (cfg : Config Rat) (tsF : TimeScale F) (starts : Option (List (Val Rat)))   -- exact configuration, for the spec oracle
 
@@ -30,6 +31,8 @@ structure Session where
   slots : Std.HashMap Nat Obj := {}
   chain : Std.HashMap String (List (Val F)) := {}   -- running target of `updchain`, per shape
   worlds : List (Option (List (World F))) := []    -- bevy: per system order (index = 2*chainFirst + qFirst) the entities of the App
+  clockPaused : Bool := false                      -- bevy's `Time`: paused / relative speed (not mina code; driver-level glue)
+  clockSpeed : Float := 1.0
 
 def fb (s : String) : F := Float32.ofBits (UInt32.ofNat s.toNat!)
 def bits (x : F) : String := toString x.toBits.toNat
@@ -230,6 +233,7 @@ def showDefaults : DefaultValues → String
 def asMerged : Obj → Option (Shape × Merged F)
   | .tl sh t => some (sh, ⟨[t]⟩)
   | .mg sh m => some (sh, m)
+  | .mg2 _ _ => none
   | .an _ _ => none
   | .qt _ _ _ _ => none
 
@@ -256,6 +260,26 @@ def mkWorld (st : Session) (w : Array String) : World F :=
     | [z, t] => ([.num (fb z)], some { enabled := true, posNs := 0, timeline := getP t, state := .none })
     | _ => ([], none)
   { compP := compP, animP := animP, sel := sel, chain := chain, compQ := compQ, animQ := animQ, pending := [] }
+
+/-- `Duration::as_secs_f64` -/
+def f64SecsOfNanos (n : Nat) : Float :=
+  Float.ofNat (n / 1000000000) + Float.ofNat (n % 1000000000) / Float.ofNat 1000000000
+
+/-- `Duration::from_secs_f64` for a non-negative finite value: nearest-even nanoseconds of the exact binary64 value -/
+def f64NanosOfSecs (x : Float) : Nat :=
+  let b : Nat := x.toBits.toNat
+  let ex : Nat := (b / 2 ^ 52) % 2048
+  let fr : Nat := b % 2 ^ 52
+  if ex == 2047 || b / 2 ^ 63 == 1 then 0 else
+  let (m, e) : Nat × Int := if ex == 0 then (fr, -1074) else (fr + 2 ^ 52, (ex : Int) - 1075)
+  let (n, d) : Nat × Nat := if e ≥ 0 then (m * 2 ^ e.toNat * 1000000000, 1) else (m * 1000000000, 2 ^ (-e).toNat)
+  let q : Nat := n / d
+  let r : Nat := n % d
+  if 2 * r > d || (2 * r == d && q % 2 == 1) then q + 1 else q
+
+/-- bevy_time 0.11 `Time::update_with_instant`: the delta the systems see for a raw (wall-clock) delta -/
+def clockDelta (paused : Bool) (speed : Float) (rawNs : Nat) : Nat :=
+  if paused then 0 else if speed != 1.0 then f64NanosOfSecs (speed * f64SecsOfNanos rawNs) else rawNs
 
 /-- per system order: the entities' observations joined by ` ## ` (no events outside a frame) -/
 def showVariants (ws : List (Option (List (World F)))) : String :=
@@ -398,6 +422,8 @@ def runLine (st : Session) (line : String) : Session × String := Id.run do
       return (st, s!"{bits t.delay} {match t.cycleDuration with | some c => bits c | none => "-"} {showOptDur t.duration} {showRepeat t.repeat_}")
     | some (.mg _ m) =>
       return (st, s!"{bits m.delay} {match m.cycleDuration with | some c => bits c | none => "-"} {showOptDur m.duration} {showRepeat m.repeat_}")
+    | some (.mg2 _ m) =>
+      return (st, s!"{bits m.delay} {match m.cycleDuration with | some c => bits c | none => "-"} {showOptDur m.duration} {showRepeat m.repeat_}")
     | _ => return (st, "bad-slot")
   | "start" =>
     match st.slots.get? w[1]!.toNat! with
@@ -407,6 +433,9 @@ def runLine (st : Session) (line : String) : Session × String := Id.run do
     | some (.mg sh m) =>
       let vs := sh.parseVals (w.toList.drop 2)
       return ({ st with slots := st.slots.insert w[1]!.toNat! (.mg sh (m.startWith vs)) }, "ok")
+    | some (.mg2 sh m) =>
+      let vs := sh.parseVals (w.toList.drop 2)
+      return ({ st with slots := st.slots.insert w[1]!.toNat! (.mg2 sh (m.startWith vs)) }, "ok")
     | _ => return (st, "bad-slot")
   | "clone" =>
     match st.slots.get? w[1]!.toNat! with
@@ -418,6 +447,9 @@ def runLine (st : Session) (line : String) : Session × String := Id.run do
       let vs := sh.parseVals (w.toList.drop 3)
       return ({ st with chain := st.chain.insert sh.name vs }, showExc ((t.update vs (fb w[2]!)).map showVals))
     | some (.mg sh m) =>
+      let vs := sh.parseVals (w.toList.drop 3)
+      return ({ st with chain := st.chain.insert sh.name vs }, showExc ((m.update vs (fb w[2]!)).map showVals))
+    | some (.mg2 sh m) =>
       let vs := sh.parseVals (w.toList.drop 3)
       return ({ st with chain := st.chain.insert sh.name vs }, showExc ((m.update vs (fb w[2]!)).map showVals))
     | _ => return (st, "bad-slot")
@@ -432,6 +464,7 @@ def runLine (st : Session) (line : String) : Session × String := Id.run do
     match st.slots.get? w[1]!.toNat! with
     | some (.tl sh t) => return go sh (fun vs => t.update vs (fb w[2]!))
     | some (.mg sh m) => return go sh (fun vs => m.update vs (fb w[2]!))
+    | some (.mg2 sh m) => return go sh (fun vs => m.update vs (fb w[2]!))
     | _ => return (st, "bad-slot")
   | "merge" =>
     let slot := w[1]!.toNat!
@@ -446,6 +479,18 @@ def runLine (st : Session) (line : String) : Session × String := Id.run do
     | some sh, _ => return ({ st with slots := st.slots.insert slot (.mg sh ⟨tls⟩) }, "ok")
     | none, some sh => return ({ st with slots := st.slots.insert slot (.mg sh ⟨tls⟩) }, "ok")
     | none, none => return (st, "bad-shape")
+  | "merge2" =>
+    let slot := w[1]!.toNat!
+    let n := w[2]!.toNat!
+    let mut parts : List (Merged F) := []
+    for i in [0:n] do
+      match st.slots.get? w[3+i]!.toNat! with
+      | some (.mg _ m) => parts := parts ++ [m]
+      | some (.tl _ t) => parts := parts ++ [⟨[t]⟩]
+      | _ => pure ()
+    match st.shapes.find? (·.name == w[3+n]!) with
+    | some sh => return ({ st with slots := st.slots.insert slot (.mg2 sh ⟨parts⟩) }, "ok")
+    | none => return (st, "bad-shape")
   | "anim" =>
     let slot := w[1]!.toNat!
     match st.shapes.find? (·.name == w[2]!) with
@@ -522,7 +567,9 @@ def runLine (st : Session) (line : String) : Session × String := Id.run do
     -- bevy leaves the order of (chain, select) and of (animate<Q>, chain) open: keep one App per order;
     -- the implementation must follow one of them consistently (checked by the runner)
     let ws := [some [wd], some [wd], some [wd], some [wd]]
-    return ({ st with worlds := ws }, showVariants ws)
+    return ({ st with worlds := ws, clockPaused := false, clockSpeed := 1.0 }, showVariants ws)
+  | "tpause" => return ({ st with clockPaused := w[1]! == "1" }, showVariants st.worlds)
+  | "tspeed" => return ({ st with clockSpeed := Float.ofBits (UInt64.ofNat w[1]!.toNat!) }, showVariants st.worlds)
   | "bent" =>
     -- one more animated entity in the same App
     let wd := mkWorld st w
@@ -533,7 +580,7 @@ def runLine (st : Session) (line : String) : Session × String := Id.run do
       match ow with
       | none => none
       | some es =>
-        match frameAll es w[1]!.toNat! (i / 2 == 1) (i % 2 == 1) with
+        match frameAll es (clockDelta st.clockPaused st.clockSpeed w[1]!.toNat!) (i / 2 == 1) (i % 2 == 1) with
         | .ok r => some (r.map fun (wd', evP, evQ) => (wd', evP ++ evQ))
         | .error _ => none
     let ws := res.map fun o => o.map fun r => r.map (·.1)
